@@ -197,6 +197,9 @@ func (g *Gen) randBatch(name string, cfg batchCfg) *BatchSpec {
 				seen := map[string]bool{}
 				for k := 0; k < ndef; k++ {
 					lhs := synTerms[g.r.Intn(len(synTerms))]
+					if g.chance(0.08) {
+						lhs = []byte{} // the empty left-hand term is a legitimate key
+					}
 					if seen[string(lhs)] {
 						continue
 					}
